@@ -119,6 +119,8 @@ func main() {
 			os.Exit(2)
 		}
 		os.Exit(replayFile(&v))
+	case "debug-c05":
+		c05Debug(os.Args[2:])
 	default:
 		fmt.Fprintln(os.Stderr, "unknown command")
 		os.Exit(2)
